@@ -161,6 +161,9 @@ def layer_rule_histories(ctx, maxlen, prop="C16"):
 
 def run(ctx: Ctx):
     run_witnesses(ctx)
+    from ..rules_common import interpreter_modes
+
+    interpreter_modes(ctx, "errors")
     quick = ctx.quick()
     L = 6 if quick else 7
     s = Stream(ctx, f"LayeredArchitecture histories: all sequences of length <= {L} over 9 calls", exhaustive=True)
